@@ -580,7 +580,7 @@ func closeOver(src string) string {
 	return strings.Join(out, " ")
 }
 
-var subs = map[string]vdrv.ReplayFunc{"single": replay, "bundle": replay}
+var subs = map[string]vdrv.ReplayFunc{"single": replay, "bundle": replay, "chunks": replayChunks}
 
 func setup(t *testing.T) {
 	H = vdrv.New("C15")
@@ -589,6 +589,7 @@ func setup(t *testing.T) {
 	if err != nil {
 		t.Fatalf("INFRA: %v", err)
 	}
+	FW = noderun.NewFileWorker("")
 }
 
 func TestCheck(t *testing.T) {
@@ -599,6 +600,7 @@ func TestCheck(t *testing.T) {
 	H.RunReplays(t, subs)
 	H.Sub(t, "single", runSingle)
 	H.Sub(t, "bundle", runBundle)
+	H.Sub(t, "chunks", runChunks)
 	complete = true
 }
 
